@@ -87,3 +87,31 @@ def replay(rec):
         return {'results': res, 'error': None}
     except Exception as e:
         return {'results': res + [('C17.c', 'error', '%s: %s' % (type(e).__name__, (str(e).splitlines() or [''])[-1][:200]))], 'error': traceback.format_exc()}
+
+
+def optima():
+    """C17.d (solver relation, not a TLC statement): on chain problems both parametrisations can represent,
+    SplineMethod and MultipleShooting reach the same optimal trajectories."""
+    from rockit import MultipleShooting
+    out = []
+    for L, N in ((3, 6), (2, 5), (3, 4)):
+        sols = {}
+        for name in ('spline', 'ms'):
+            ocp = Ocp(t0=0, T=2)
+            xs = [ocp.state() for _ in range(L - 1)]
+            u = ocp.control()
+            chain = xs + [u]
+            for i in range(L - 1): ocp.set_der(xs[i], chain[i + 1])
+            ocp.subject_to(ocp.at_t0(xs[0]) == 0)
+            ocp.subject_to(ocp.at_tf(xs[0]) == 1)
+            if L == 3:
+                ocp.subject_to(ocp.at_t0(xs[1]) == 0); ocp.subject_to(ocp.at_tf(xs[1]) == 0)
+            ocp.subject_to(-3 <= (u <= 3))
+            ocp.add_objective(ocp.sum(u ** 2))
+            ocp.solver('ipopt', {"print_time": False, "ipopt": {"print_level": 0, "sb": "yes", "tol": 1e-10}})
+            ocp.method(SplineMethod(N=N) if name == 'spline' else MultipleShooting(N=N, intg='rk'))
+            sol = quiet(ocp.solve)
+            sols[name] = np.array(sol.sample(xs[0], grid='control')[1]).reshape(-1)
+        ok = np.allclose(sols['spline'], sols['ms'], atol=1e-5)
+        out.append(('C17.d:optima:L%dN%d' % (L, N), 'ok' if ok else 'mismatch', 'spline %s vs shooting %s' % (np.round(sols['spline'], 6).tolist(), np.round(sols['ms'], 6).tolist())))
+    return out
